@@ -347,6 +347,31 @@ func tcpoptPool() []item {
 			}
 		}
 	}
+	// every fixed-size option one byte at a time past the end of the area: the option starts at
+	// size-n+d, so d of its n bytes are missing (d = 0: it fits exactly)
+	for _, kn := range [][2]int{{2, 4}, {3, 3}, {4, 2}, {8, 10}, {5, 10}, {5, 18}, {5, 34}, {30, 6}} {
+		k, n := kn[0], kn[1]
+		for _, size := range []int{12, 20, 40} {
+			for d := 0; d < n; d++ {
+				pos := size - n + d
+				if pos < 0 {
+					continue
+				}
+				a := make([]byte, size)
+				for i := range a {
+					a[i] = 1
+				}
+				a[pos] = byte(k)
+				if pos+1 < size {
+					a[pos+1] = byte(n)
+				}
+				for i := pos + 2; i < size; i++ {
+					a[i] = byte(0x40 + i)
+				}
+				areas = append(areas, a)
+			}
+		}
+	}
 	// well-formed ones next to the boundary: MSS 0, window scale 15 / 255, SACK with 1..4 blocks, TS + SACK filling 40 bytes
 	areas = append(areas, []byte{2, 4, 0, 0}, []byte{3, 3, 15, 1}, []byte{3, 3, 255, 0}, []byte{2, 4, 255, 255, 3, 3, 14, 4, 2, 0, 0},
 		append([]byte{1, 1, 5, 10}, make([]byte, 8)...), append([]byte{1, 1, 5, 18}, make([]byte, 16)...), append([]byte{1, 1, 5, 26}, make([]byte, 24)...),
